@@ -151,7 +151,29 @@ static void cancel_before_run_case(int reactor,const char *rname,int phase,int r
 	if(!fail.empty()) vf::violation(std::string("io-wait:cancelled-before-run:")+rname,fail+" ["+cs+"]","\"case\":"+vf::jstr(cs)); vf::guard("cancel_before_run_cases"); vf::C().traces++; vf::outcome("S8|"+std::string(rname)+"|"+std::to_string(phase)+std::to_string(readable)+std::to_string(how)+"|"+codes);
 	{ static uint64_t sc=0; if(vf::sample_tick(sc,5)) vf::sample("{\"case\":"+vf::jstr(cs)+",\"handler\":"+vf::jstr(codes)+"}",80); }
 	if(ss.get()){ if(how!=2){ error_code e; ss->close(e); sp[0]=-1; } ss.reset(); } if(sp[0]>=0) ::close(sp[0]); ::close(sp[1]); }
-static void failing_registration_pass(){ { int reactors[]={io::reactor::use_epoll,io::reactor::use_poll,io::reactor::use_select}; const char *rn[]={"epoll","poll","select"}; for(int r=0;r<3;r++) for(int phase=0;phase<2;phase++) for(int rd=0;rd<2;rd++) for(int how=0;how<3;how++) cancel_before_run_case(reactors[r],rn[r],phase,rd,how); }
+// S9 (sequential): descriptor NUMBER reuse. A wait is pending on descriptor N; the descriptor goes away in one of three orders (cancel then close; raw close then
+// cancel_io_events - the reactor's removal then fails with EBADF; raw close, a NEW socket takes number N, then cancel_io_events - removal fails with ENOENT); then a
+// new, ready socket with the same number N is waited on in the same io_service. The old handler must run exactly once (cancellation/error, or success if it was a
+// writability wait), and the new handler must run exactly once with success, because its descriptor is ready - whatever the reactor cached about number N.
+static void fd_reuse_case(int reactor,const char *rname,int ev1,int how,int ev2,int rounds){ const char *hw[]={"cancel then close","close then cancel","close, number reused, then cancel"}; std::string cs="S9 descriptor number reuse reactor="+std::string(rname)+" first wait="+(ev1?"writable":"readable")+" end="+hw[how]+" second wait="+(ev2?"writable":"readable")+" rounds="+std::to_string(rounds); vf::announce(cs); vf::eval();
+	io::io_service srv(reactor); int sp[2]; if(socketpair(AF_UNIX,SOCK_STREAM,0,sp)){ vf::guard("failing_registration_cases_skipped"); return; } int N=sp[0]; std::vector<int> peers; peers.push_back(sp[1]);
+	auto code=[](error_code const &e){ return !e?std::string("ok"): e==error_code(io::aio_error::canceled,io::aio_error_cat)?std::string("canceled"):std::string("error"); };
+	std::vector<int> cnt(rounds+1,0); std::vector<std::string> codes(rounds+1); std::vector<std::function<void()> > script;
+	auto fresh_onto_N=[&](){ int q[2]; if(socketpair(AF_UNIX,SOCK_STREAM,0,q)) return; if(q[0]!=N){ dup2(q[0],N); ::close(q[0]); } peers.push_back(q[1]); if(write(q[1],"x",1)!=1){} };
+	for(int r=0;r<rounds;r++){ int ev= r==0?ev1:ev2; script.push_back([&,r,ev](){ srv.set_io_event(N,ev?io::io_service::out:io::io_service::in,[&,r](error_code const &e){ cnt[r]++; codes[r]+=code(e)+","; }); });
+		if(how==0){ script.push_back([&](){ srv.cancel_io_events(N); }); script.push_back([&](){ ::close(N); fresh_onto_N(); }); }
+		else if(how==1){ script.push_back([&](){ ::close(N); srv.cancel_io_events(N); }); script.push_back([&](){ fresh_onto_N(); }); }
+		else { script.push_back([&](){ ::close(N); fresh_onto_N(); srv.cancel_io_events(N); }); } }
+	script.push_back([&](){ srv.set_io_event(N,ev2?io::io_service::out:io::io_service::in,[&](error_code const &e){ cnt[rounds]++; codes[rounds]+=code(e)+","; }); });
+	script.push_back([&](){ srv.cancel_io_events(N); }); // final sweep
+	size_t pc=0; int hop=0; std::function<void()> tick; tick=[&](){ if(hop>0){ hop--; srv.post(tick); return; } if(pc<script.size()){ script[pc++](); hop=3; srv.post(tick); } else srv.stop(); }; srv.post(tick); srv.run();
+	std::string fail; for(int r=0;r<=rounds&&fail.empty();r++){ if(cnt[r]!=1) fail="the handler of wait #"+std::to_string(r+1)+" on descriptor number "+std::to_string(N)+" ran "+std::to_string(cnt[r])+" times ("+codes[r]+")"; }
+	if(fail.empty()&&codes[rounds]!="ok,") fail="the wait on the NEW, ready socket that got the number of the closed one completed with '"+codes[rounds]+"' instead of success";
+	if(fail.empty()&&rounds>=1&&!(ev1==0&&codes[0]=="ok,")){} if(fail.empty()&&ev1==0&&codes[0]=="ok,") fail="a readability wait on an idle socket completed with success";
+	if(!fail.empty()) vf::violation(std::string("io-wait:descriptor-number-reuse:")+rname,fail+" ["+cs+"]","\"case\":"+vf::jstr(cs)); vf::guard("descriptor_number_reuse_cases"); vf::C().traces++; { std::string all; for(int r=0;r<=rounds;r++) all+=codes[r]+"/"; vf::outcome("S9|"+std::string(rname)+"|"+std::to_string(ev1)+std::to_string(how)+std::to_string(ev2)+std::to_string(rounds)+"|"+all); static uint64_t sc=0; if(vf::sample_tick(sc,5)) vf::sample("{\"case\":"+vf::jstr(cs)+",\"handlers\":"+vf::jstr(all)+"}",90); }
+	::close(N); for(size_t i=0;i<peers.size();i++) ::close(peers[i]); }
+static void failing_registration_pass(){ { int reactors[]={io::reactor::use_epoll,io::reactor::use_poll,io::reactor::use_select}; const char *rn[]={"epoll","poll","select"}; for(int r=0;r<3;r++) for(int e1=0;e1<2;e1++) for(int how=0;how<3;how++) for(int e2=0;e2<2;e2++) for(int rounds=1;rounds<=2;rounds++) fd_reuse_case(reactors[r],rn[r],e1,how,e2,rounds); }
+ { int reactors[]={io::reactor::use_epoll,io::reactor::use_poll,io::reactor::use_select}; const char *rn[]={"epoll","poll","select"}; for(int r=0;r<3;r++) for(int phase=0;phase<2;phase++) for(int rd=0;rd<2;rd++) for(int how=0;how<3;how++) cancel_before_run_case(reactors[r],rn[r],phase,rd,how); }
  int reactors[]={io::reactor::use_epoll,io::reactor::use_poll,io::reactor::use_select}; const char *rn[]={"epoll","poll","select"}; for(int r=0;r<3;r++) for(int kind=0;kind<4;kind++) for(int follow=0;follow<4;follow++) failing_registration_case(reactors[r],rn[r],kind,follow); }
 static uint64_t n_exec=0;
 static void run_scenario(const Scenario &s,int reactor,const char *rname,int bound,bool adopt){ std::string cs=s.name+" reactor="+rname; vf::announce(cs); std::shared_ptr<Book> cur; std::set<std::string> outcomes; sched::G.virtual_clock=true; sched::G.adopt_threads=adopt;
@@ -170,7 +192,7 @@ int main(int argc,char **argv){ vf::init(argc,argv,"C17","model_checking");
 	tsan_pass(); return vf::finish();
 #else
 	bool th=vf::thorough(); int bound=th?3:2; std::vector<Scenario> S=scenarios(); int reactors[]={io::reactor::use_epoll,io::reactor::use_poll,io::reactor::use_select}; const char *rn[]={"epoll","poll","select"};
-	vf::C().rule="S8 (sequential): a wait armed and cancelled (cancel_io_events / stream_socket::cancel / close) while the loop is not running (before the first run(), after stop()+reset()) x readable/idle descriptor x 3 reactors: handler exactly once with a cancellation or error code, never success. S7 (sequential): I/O waits whose registration the reactor refuses (regular file, closed descriptor, descriptor >= FD_SETSIZE; plus a valid socket) x 3 reactors x {cancel, cancel twice, second wait then cancel, nothing}: each handler exactly once. S6 (sequential): N in {1,2,10,500,999,1000,1001,1500,2500; thorough +5000,12000,20000} simultaneously pending timers x 6 (16) shifts of the slot generator x 5 cancel/expire orders: ids pairwise distinct among pending timers, every handler exactly once with the right code. Scenarios S1 (two producers posting plain/event/io/nested handlers), S2 (timers armed with equal, past and future deadlines and cancelled from another thread, cancel racing expiry, double cancel), S3 (two descriptors becoming readable/writable, writer thread, canceller), S4 (stop racing post) x reactors {epoll, poll, select}, and S5 (thread_pool(2): five jobs, one throwing, one cancelled, stop) - every schedule with <= "+std::to_string(bound)+" preemptions ("+std::to_string(bound-1)+" for S2 and S3); scheduling points: every pthread mutex / condition operation, poll/epoll_wait/select, explicit yields around descriptor writes; virtual clock. states = distinct handler-outcome vectors, transitions = scheduling decisions, traces = executions of the real code";
+	vf::C().rule="S9 (sequential): descriptor number reuse - a pending wait on descriptor N, N goes away {cancel then close, raw close then cancel, raw close + a new socket takes N + cancel}, then a new ready socket with number N is waited on (readable/writable, 1 or 2 rounds) for each reactor: old handler exactly once, new handler exactly once with success. S8 (sequential): a wait armed and cancelled (cancel_io_events / stream_socket::cancel / close) while the loop is not running (before the first run(), after stop()+reset()) x readable/idle descriptor x 3 reactors: handler exactly once with a cancellation or error code, never success. S7 (sequential): I/O waits whose registration the reactor refuses (regular file, closed descriptor, descriptor >= FD_SETSIZE; plus a valid socket) x 3 reactors x {cancel, cancel twice, second wait then cancel, nothing}: each handler exactly once. S6 (sequential): N in {1,2,10,500,999,1000,1001,1500,2500; thorough +5000,12000,20000} simultaneously pending timers x 6 (16) shifts of the slot generator x 5 cancel/expire orders: ids pairwise distinct among pending timers, every handler exactly once with the right code. Scenarios S1 (two producers posting plain/event/io/nested handlers), S2 (timers armed with equal, past and future deadlines and cancelled from another thread, cancel racing expiry, double cancel), S3 (two descriptors becoming readable/writable, writer thread, canceller), S4 (stop racing post) x reactors {epoll, poll, select}, and S5 (thread_pool(2): five jobs, one throwing, one cancelled, stop) - every schedule with <= "+std::to_string(bound)+" preemptions ("+std::to_string(bound-1)+" for S2 and S3); scheduling points: every pthread mutex / condition operation, poll/epoll_wait/select, explicit yields around descriptor writes; virtual clock. states = distinct handler-outcome vectors, transitions = scheduling decisions, traces = executions of the real code";
 	vf::assume("a loop that sleeps until its one-hour poll timeout while handlers are pending is reported as a lost wake-up (the virtual clock would have to jump past every deadline the scenario armed)"); vf::assume("timers are armed on the millisecond grid; the virtual clock only takes values on that grid"); vf::assume("the data-race clause is decided by ThreadSanitizer on free-running executions of the same scenarios");
 	if(!vf::C().replay_file.empty()) printf("replay: the replay file names scenario, reactor and schedule (choice vector); re-running the quick tier reproduces it\n");
 	std::vector<std::pair<int,int> > jobs; for(size_t si=0;si<S.size();si++) for(int r=0;r<3;r++) jobs.push_back(std::make_pair(si,r)); jobs.push_back(std::make_pair(-1,0)); for(int k=0;k<3;k++) jobs.push_back(std::make_pair(-2,k));
@@ -178,7 +200,7 @@ int main(int argc,char **argv){ vf::init(argc,argv,"C17","model_checking");
 	{ std::string cmd=std::string("timeout -k 5 ")+(vf::thorough()?"1500 ":"400 ")+vf::verif_dir()+"/build/bin/C17.tsan --tier "+vf::C().tier+" --pass tsan --result '"+vf::scratch_dir()+"/tsan.res' 2>'"+vf::scratch_dir()+"/tsan.err'"; int st=system(cmd.c_str()); FILE *f=fopen((vf::scratch_dir()+"/tsan.res").c_str(),"rb"); bool merged=f&&vf::merge_ctx(f); if(f) fclose(f); std::string err; { std::ifstream e(vf::scratch_dir()+"/tsan.err"); std::stringstream ss; ss<<e.rdbuf(); err=ss.str(); }
 	  if(WIFEXITED(st)&&(WEXITSTATUS(st)==124||WEXITSTATUS(st)==137)){ vf::violation("free-running-pass-hang","the free-running ThreadSanitizer pass did not terminate within its time limit (livelock, deadlock or a corrupted structure): "+err.substr(0,300),"\"report\":"+vf::jstr(err.substr(0,1500))); }
 	  else if(err.find("ThreadSanitizer: data race")!=std::string::npos||(WIFEXITED(st)&&WEXITSTATUS(st)==66)){ size_t p=err.find("WARNING: ThreadSanitizer"); std::string rep= p==std::string::npos?err.substr(0,1500):err.substr(p,1500); std::string fn; size_t q=rep.find("#0 "); if(q!=std::string::npos){ size_t e2=rep.find('\n',q); fn=rep.substr(q,e2-q); } vf::violation("data-race","ThreadSanitizer reports a data race in the free-running pass: "+fn,"\"report\":"+vf::jstr(rep)); } else if(!merged||st!=0){ fprintf(stderr,"harness error: tsan pass failed (status %d): %s\n",st,err.substr(0,800).c_str()); vf::C().harness_error=true; } }
-	vf::require_guard("executions"); vf::require_guard("executions_with_virtual_time_advance"); vf::require_guard("scenarios_with_several_outcomes"); vf::require_guard("tsan_free_runs"); vf::require_guard("many_timer_cases_with_table_growth"); vf::require_guard("failing_registration_cases"); vf::require_guard("cancel_before_run_cases"); vf::require_guard("io_wait_registrations_refused");
+	vf::require_guard("descriptor_number_reuse_cases"); vf::require_guard("executions"); vf::require_guard("executions_with_virtual_time_advance"); vf::require_guard("scenarios_with_several_outcomes"); vf::require_guard("tsan_free_runs"); vf::require_guard("many_timer_cases_with_table_growth"); vf::require_guard("failing_registration_cases"); vf::require_guard("cancel_before_run_cases"); vf::require_guard("io_wait_registrations_refused");
 	return vf::finish();
 #endif
 }
